@@ -1,4 +1,5 @@
 import LoraVerif.Lemmas.RefineOps
+import LoraVerif.Lemmas.MacWFStep
 /-!
 # The non-blocking front-end refines the history semantics
 
@@ -981,5 +982,371 @@ theorem nbRun_refines {σ} (g : Rng σ) (cfg : NbCfg) (pre : MacState × σ) (gh
         obtain ⟨out, hstep, hinv1, _, _⟩ := hpost
         obtain ⟨pre', gh', outs, hr, hi⟩ := ih (r1.m, rs1) gh1 r1 rs1 resps1 hinv1 hrun
         exact ⟨pre', gh', out :: outs, by simpa using run_cons_ok g pre _ pre' e out _ outs hstep hr, hi⟩
+
+/-! ## failures -/
+
+/-- failures of the state machine that are not failures of the MAC: the `i32`/`u32` arithmetic on
+timestamps and window times, and the `panic!` on a radio that answers a pending transmission with
+anything but `TxDone` -/
+def NbExtra : Fault → Prop
+  | .panic s => s = "t1 i32 overflow" ∨ s = "u32 add overflow" ∨ s = "u32 sub underflow" ∨
+      s = "SendingData: Unexpected radio response"
+  | .hang _ => False
+
+theorem ofGen_fault {α} {site : String} {x : Option α} {f : Fault} (h : ofGen site x = .error f) : f = .panic site := by
+  cases x with
+  | none => cases h; rfl
+  | some a => cases h
+
+theorem rx1Timeout_fault {d ts : Nat} {off : Int} {f : Fault} (h : rx1Timeout d ts off = .error f) : NbExtra f := by
+  unfold rx1Timeout at h
+  simp only at h
+  cases h1 : ofGen "t1 i32 overflow" (Rt.ck .i32 (Rt.wrap .i32 (d : Int) + Rt.wrap .i32 (ts : Int))) with
+  | error e =>
+    rw [h1] at h
+    cases h
+    rw [ofGen_fault h1]; exact Or.inl rfl
+  | ok s1 =>
+    rw [h1] at h
+    simp only [bind, Except.bind] at h
+    cases h2 : ofGen "t1 i32 overflow" (Rt.ck .i32 (s1 + off)) with
+    | error e =>
+      rw [h2] at h
+      cases h
+      rw [ofGen_fault h2]; exact Or.inl rfl
+    | ok s2 => rw [h2] at h; cases h
+
+theorem u32Add_fault {a b : Nat} {f : Fault} (h : u32Add a b = .error f) : NbExtra f := by
+  unfold u32Add at h
+  split at h
+  · cases h; exact Or.inr (Or.inl rfl)
+  · cases h
+
+theorem u32Sub_fault {a b : Nat} {f : Fault} (h : u32Sub a b = .error f) : NbExtra f := by
+  unfold u32Sub at h
+  split at h
+  · cases h; exact Or.inr (Or.inr (Or.inl rfl))
+  · cases h
+
+theorem bind_error {α β} {x : M α} {k : α → M β} {f : Fault} (h : (x >>= k) = .error f) :
+    x = .error f ∨ ∃ a, x = .ok a ∧ k a = .error f := by
+  cases x with
+  | error e => left; simpa [bind, Except.bind] using h
+  | ok a => right; exact ⟨a, rfl, h⟩
+
+theorem afterTxDone_fault {cfg : NbCfg} {r : NbRun} {join : Bool} {tx : TxOut} {ts : Nat} {f : Fault}
+    (h : afterTxDone cfg r join tx ts = .error f) : NbExtra f := by
+  unfold afterTxDone at h
+  rcases bind_error h with h | ⟨t1, _, h⟩
+  · exact rx1Timeout_fault h
+  · cases h
+
+theorem idleTx_fault {cfg : NbCfg} {r : NbRun} {join : Bool} {tx : TxOut} {len n : Nat} {f : Fault}
+    (h : idleTx cfg r join tx len n = .error f) : NbExtra f := by
+  unfold idleTx at h
+  simp only [next_eq] at h
+  cases hit : headItem r.script <;> simp only [hit] at h
+  · cases h
+  · cases h
+  · exact afterTxDone_fault h
+  · cases h
+
+/-- the history event whose step fails where the state machine's MAC call fails -/
+def FaultEv (gh : Option NbGhost) (st : NbState) (ev : NbEvent) (e : Ev) : Prop :=
+  match st, ev with
+  | .idle, .join => e = .joinOtaa (some 0) none none 0 0
+  | .idle, .send d p c => e = .uplink d p c (some 0) none none 0 0
+  | .waitingForRx _ tx second _, .radio (.rx snr v) => ∃ gh0, gh = some gh0 ∧ e = ghostEv (gh0.heard second (v, snr)) tx
+  | _, _ => False
+
+/-- **a failure of the state machine is one of its own (`NbExtra`) or the failure of a history step** -/
+theorem nbStep_fault {σ} (g : Rng σ) (cfg : NbCfg) (pre : MacState × σ) (gh : Option NbGhost) (r : NbRun) (rs : σ)
+    (ev : NbEvent) (items : List NbItem) (f : Fault)
+    (hinv : NbInv g pre gh r rs) (h : nbEvent g cfg r rs ev items = .error f) :
+    NbExtra f ∨ ∃ e, step g pre e = .error f ∧ FaultEv gh r.st ev e := by
+  unfold nbEvent nbStep at h
+  cases hst : r.st with
+  | idle =>
+    have hi : gh = none ∧ pre = (r.m, rs) := by unfold NbInv at hinv; rw [hst] at hinv; exact hinv
+    obtain ⟨rfl, rfl⟩ := hi
+    simp only [hst] at h
+    cases ev with
+    | timeout => cases h
+    | radio e => cases h
+    | join =>
+      rcases bind_error h with h | ⟨⟨out, m1, rs1⟩, _, h⟩
+      · right
+        refine ⟨_, ?_, rfl⟩
+        simp only [step, h, bind, Except.bind]
+      · left
+        rcases bind_error h with h | ⟨x, _, h⟩
+        · exact idleTx_fault h
+        · cases h
+    | send d p c =>
+      rcases bind_error h with h | ⟨⟨o, m1, rs1⟩, _, h⟩
+      · right
+        refine ⟨_, ?_, rfl⟩
+        simp only [step, h, bind, Except.bind]
+      · left
+        cases o with
+        | none => cases h
+        | some out =>
+          simp only at h
+          rcases bind_error h with h | ⟨x, _, h⟩
+          · exact idleTx_fault h
+          · cases h
+  | sendingData join tx =>
+    left
+    simp only [hst] at h
+    cases ev with
+    | timeout => cases h
+    | join => cases h
+    | send d p c => cases h
+    | radio e =>
+      simp only [next_eq] at h
+      cases hit : headItem items <;> simp only [hit] at h
+      · cases e with
+        | rx snr v => cases h; exact Or.inr (Or.inr (Or.inr rfl))
+        | txDone ts =>
+          rcases bind_error h with h | ⟨x, _, h⟩
+          · exact afterTxDone_fault h
+          · cases h
+      · cases h
+      · cases e with
+        | rx snr v => cases h; exact Or.inr (Or.inr (Or.inr rfl))
+        | txDone ts =>
+          rcases bind_error h with h | ⟨x, _, h⟩
+          · exact afterTxDone_fault h
+          · cases h
+      · cases h; exact Or.inr (Or.inr (Or.inr rfl))
+  | waitingForRxWindow join tx second t =>
+    left
+    simp only [hst] at h
+    cases ev with
+    | radio e => cases h
+    | join => cases h
+    | send d p c => cases h
+    | timeout =>
+      simp only [next_eq] at h
+      have key : ∀ {β} (k : Nat → M β), ((if second then u32Add t cfg.duration else do
+            let between ← u32Sub (macRxDelay r.m join true) (macRxDelay r.m join false)
+            if between > cfg.duration then u32Add t cfg.duration else u32Add t between) >>= k) = .error f →
+          (∀ c, k c ≠ .error f) → NbExtra f := by
+        intro β k hk hne
+        rcases bind_error hk with hk | ⟨c, _, hk⟩
+        · cases second with
+          | true => exact u32Add_fault hk
+          | false =>
+            simp only [Bool.false_eq_true, if_false] at hk
+            rcases bind_error hk with hk | ⟨b, _, hk⟩
+            · exact u32Sub_fault hk
+            · split at hk <;> exact u32Add_fault hk
+        · exact absurd hk (hne c)
+      cases hit : headItem items <;> simp only [hit] at h
+      · exact key _ h (fun c hc => by cases hc)
+      · cases h
+      · exact key _ h (fun c hc => by cases hc)
+      · exact key _ h (fun c hc => by cases hc)
+  | waitingForRx join tx second t =>
+    have hi : InFlight g pre gh join tx second r.m rs := by unfold NbInv at hinv; rw [hst] at hinv; exact hinv
+    obtain ⟨k, rx1, rx2, hgh, hstart, hw1, hw2, hsec⟩ := hi
+    simp only [hst] at h
+    cases ev with
+    | join => cases h
+    | send d p c => cases h
+    | timeout =>
+      left
+      simp only [next_eq] at h
+      have key : (if second then
+            (pure (NbResp.mac (macRx2Complete r.m).1,
+              ({ m := (macRx2Complete r.m).2, st := .idle, script := items.tail, calls := NbCall.cancelRx :: r.calls,
+                 downlinks := r.downlinks, dlCap := r.dlCap } : NbRun), rs) : M (NbResp × NbRun × σ))
+          else do
+            let between ← u32Sub (macRxDelay r.m join true) (macRxDelay r.m join false)
+            let t2 ← u32Add t between
+            pure (NbResp.timeoutRequest t2,
+              ({ m := r.m, st := .waitingForRxWindow join tx true t2, script := items.tail, calls := NbCall.cancelRx :: r.calls,
+                 downlinks := r.downlinks, dlCap := r.dlCap } : NbRun), rs)) = .error f → NbExtra f := by
+        intro hk
+        cases second with
+        | true => cases hk
+        | false =>
+          simp only [Bool.false_eq_true, if_false] at hk
+          rcases bind_error hk with hk | ⟨b, _, hk⟩
+          · exact u32Sub_fault hk
+          · rcases bind_error hk with hk | ⟨t2, _, hk⟩
+            · exact u32Add_fault hk
+            · cases hk
+      cases hit : headItem items <;> simp only [hit] at h
+      · exact key h
+      · cases h
+      · exact key h
+      · exact key h
+    | radio e =>
+      simp only [next_eq] at h
+      have key : ∀ snr v, (macHandleRx r.m v (if second then tx.rx2 else tx.rx1).maxPayload.toNat snr false) = .error f →
+          ∃ e, step g pre e = .error f ∧ FaultEv gh (.waitingForRx join tx second t) (.radio (.rx snr v)) e := by
+        intro snr v hrx
+        subst hgh
+        refine ⟨_, ?_, ⟨_, rfl, rfl⟩⟩
+        have hwin : window r.m (some (v, snr)) (if second then tx.rx2 else tx.rx1).maxPayload.toNat = .error f := by
+          rw [window_some, hrx]; rfl
+        have hcy : classACycle r.m ((NbGhost.heard { kind := k, rx1 := rx1, rx2 := rx2 } second (v, snr)).rx1)
+            ((NbGhost.heard { kind := k, rx1 := rx1, rx2 := rx2 } second (v, snr)).rx2)
+            tx.rx1.maxPayload.toNat tx.rx2.maxPayload.toNat = .error f := by
+          cases second with
+          | true =>
+            simp only [if_true] at hwin
+            simp only [NbGhost.heard, if_true, classACycle, hw1, hwin, bind, Except.bind]
+          | false =>
+            simp only [Bool.false_eq_true, if_false] at hwin
+            simp only [NbGhost.heard, Bool.false_eq_true, if_false, classACycle, hwin, bind, Except.bind]
+        have hk : (NbGhost.heard { kind := k, rx1 := rx1, rx2 := rx2 } second (v, snr)).kind = k := by
+          cases second <;> rfl
+        cases k with
+        | some dpc =>
+          obtain ⟨d, p, c⟩ := dpc
+          obtain ⟨_, o, hsend, rfl⟩ := hstart
+          simp only [ghostEv, hk, step, hsend, hcy, bind, Except.bind]
+        | none =>
+          obtain ⟨_, o, hjoin, rfl⟩ := hstart
+          simp only [ghostEv, hk, step, hjoin, hcy, bind, Except.bind]
+      cases hit : headItem items <;> simp only [hit] at h
+      · cases e with
+        | txDone ts => cases h
+        | rx snr v =>
+          rcases bind_error h with h | ⟨⟨o, m2⟩, _, h⟩
+          · exact Or.inr (key snr v h)
+          · exfalso
+            cases o with
+            | none => cases h
+            | some o => simp only at h; split at h <;> cases h
+      · cases h
+      · cases e with
+        | txDone ts => cases h
+        | rx snr v =>
+          rcases bind_error h with h | ⟨⟨o, m2⟩, _, h⟩
+          · exact Or.inr (key snr v h)
+          · exfalso
+            cases o with
+            | none => cases h
+            | some o => simp only at h; split at h <;> cases h
+      · cases h
+
+/-! ## validity, and the absence of MAC panics -/
+
+def kindOk : Option (List Nat × Nat × Bool) → Bool
+  | none => true
+  | some (d, p, _) => (p != 0 || d.isEmpty) && decide (d.length ≤ 222)
+
+def ghOk : Option NbGhost → Bool
+  | none => true
+  | some x => kindOk x.kind && rxWF x.rx1 && rxWF x.rx2
+
+/-- the application contract of an event (`send`: as `validEv`), and well-formed decoded views -/
+def NbEvent.valid : NbEvent → Bool
+  | .send d p _ => (p != 0 || d.isEmpty) && decide (d.length ≤ 222)
+  | .radio (.rx _ v) => viewWF v
+  | _ => true
+
+theorem ghostEv_valid (rid : RegionId) (x : NbGhost) (tx : TxOut) (h : ghOk (some x) = true) :
+    validEv rid (ghostEv x tx) = true := by
+  simp only [ghOk, Bool.and_eq_true] at h
+  obtain ⟨⟨hk, h1⟩, h2⟩ := h
+  unfold ghostEv
+  cases hkind : x.kind with
+  | none => simp only [validEv, h1, h2, Bool.and_self]
+  | some dpc =>
+    obtain ⟨d, p, c⟩ := dpc
+    rw [hkind] at hk
+    simp only [kindOk, Bool.and_eq_true] at hk
+    simp only [validEv, hk.1, hk.2, h1, h2, Bool.and_self]
+
+theorem heard_ok (x : NbGhost) (second : Bool) (v : RxView) (snr : Int) (h : ghOk (some x) = true) (hv : viewWF v = true) :
+    ghOk (some (x.heard second (v, snr))) = true := by
+  simp only [ghOk, Bool.and_eq_true] at h ⊢
+  obtain ⟨⟨hk, h1⟩, h2⟩ := h
+  cases second with
+  | true => exact ⟨⟨hk, h1⟩, hv⟩
+  | false => exact ⟨⟨hk, hv⟩, h2⟩
+
+theorem nbAbs_ok (rid : RegionId) (gh : Option NbGhost) (st : NbState) (ev : NbEvent) (item : NbItem) (st' : NbState)
+    (hg : ghOk gh = true) (hv : ev.valid = true) :
+    ghOk (nbAbs gh st ev item st').2 = true ∧ ∀ e, (nbAbs gh st ev item st').1 = some e → validEv rid e = true := by
+  unfold nbAbs
+  split
+  · -- idle, send
+    rename_i d p c
+    simp only [NbEvent.valid, Bool.and_eq_true] at hv
+    split
+    · exact ⟨rfl, fun e he => by cases he; simp only [validEv, hv.1, hv.2, rxWF, Bool.and_self]⟩
+    · exact ⟨by simp only [ghOk, kindOk, hv.1, hv.2, rxWF, Bool.and_self], fun e he => by cases he⟩
+  · split
+    · exact ⟨rfl, fun e he => by cases he; rfl⟩
+    · exact ⟨rfl, fun e he => by cases he⟩
+  · rename_i join tx second t snr v
+    split
+    · split
+      · rename_i x
+        have hx := heard_ok x second v snr hg hv
+        split
+        · exact ⟨rfl, fun e he => by cases he; exact ghostEv_valid rid _ tx hx⟩
+        · exact ⟨hx, fun e he => by cases he⟩
+      · exact ⟨rfl, fun e he => by cases he⟩
+    · exact ⟨hg, fun e he => by cases he⟩
+  · rename_i join tx second t
+    split
+    · rename_i x
+      split
+      · exact ⟨rfl, fun e he => by cases he; exact ghostEv_valid rid _ tx hg⟩
+      · exact ⟨hg, fun e he => by cases he⟩
+    · exact ⟨rfl, fun e he => by cases he⟩
+  · exact ⟨hg, fun e he => by cases he⟩
+
+theorem faultEv_valid (rid : RegionId) (gh : Option NbGhost) (st : NbState) (ev : NbEvent) (e : Ev)
+    (hg : ghOk gh = true) (hv : ev.valid = true) (h : FaultEv gh st ev e) : validEv rid e = true := by
+  unfold FaultEv at h
+  split at h
+  · subst h; rfl
+  · subst h
+    simp only [NbEvent.valid, Bool.and_eq_true] at hv
+    simp only [validEv, hv.1, hv.2, rxWF, Bool.and_self]
+  · obtain ⟨gh0, rfl, rfl⟩ := h
+    exact ghostEv_valid rid _ _ (heard_ok gh0 _ _ _ hg hv)
+  · exact h.elim
+
+/-- **no session of the non-blocking front-end panics in the MAC**: a panic of `nbRun` is one of the
+state machine's own (`NbExtra`) -/
+theorem nbRun_fault {σ} (g : Rng σ) (cfg : NbCfg) (pre : MacState × σ) (gh : Option NbGhost) (r : NbRun) (rs : σ)
+    (evs : List (NbEvent × List NbItem)) (site : String)
+    (hinv : NbInv g pre gh r rs) (hwf : MacWF pre.1) (hg : ghOk gh = true) (hv : ∀ x ∈ evs, x.1.valid = true)
+    (h : nbRun g cfg r rs evs = .error (.panic site)) : NbExtra (.panic site) := by
+  induction evs generalizing pre gh r rs with
+  | nil => cases h
+  | cons x rest ih =>
+    obtain ⟨ev, items⟩ := x
+    have hvx : ev.valid = true := hv (ev, items) List.mem_cons_self
+    unfold nbRun at h
+    rcases bind_error h with h | ⟨⟨resp, r1, rs1⟩, hev, h⟩
+    · rcases nbStep_fault g cfg pre gh r rs ev items _ hinv h with hx | ⟨e, hstep, hfe⟩
+      · exact hx
+      · exfalso
+        obtain ⟨m0, s0⟩ := pre
+        exact (step_safe g m0 s0 e hwf (faultEv_valid _ gh r.st ev e hg hvx hfe)).no_panic site hstep
+    · rcases bind_error h with h | ⟨y, _, h⟩
+      · have hpost := nbStep_inv g cfg pre gh r rs ev items resp r1 rs1 hinv hev
+        have hok := nbAbs_ok pre.1.region.id gh r.st ev (headItem items) r1.st hg hvx
+        cases hab : nbAbs gh r.st ev (headItem items) r1.st with
+        | mk e gh1 =>
+          rw [hab] at hpost hok
+          have hrest : ∀ x ∈ rest, x.1.valid = true := fun x hx => hv x (List.mem_cons_of_mem _ hx)
+          cases e with
+          | none => exact ih pre gh1 r1 rs1 hpost.1 hwf hok.1 hrest h
+          | some e =>
+            obtain ⟨out, hstep, hinv1, _, _⟩ := hpost
+            obtain ⟨m0, s0⟩ := pre
+            have hwf1 : MacWF r1.m := ((step_safe g m0 s0 e hwf (hok.2 e rfl)).elim hstep).1
+            exact ih (r1.m, rs1) gh1 r1 rs1 hinv1 hwf1 hok.1 hrest h
+      · cases h
 
 end Model
